@@ -32,7 +32,8 @@ META = dict(
          "a write-deadline family (server silent for the first call while no-response acks=0 produce requests keep being "
          "written every 50 ms, or a second call follows with WriteTimeout 30 s >> ReadTimeout 400 ms) checks that the silent "
          "call is back within a load-aware 2.5 s bound (read_timeout_honoured); "
-         "each request (MetadataRequest, or ListPartitionReassignmentsRequest for the flexible v1 response header) carries a "
+         "each request (GetMetadata, Produce with RequiredAcks 1/-1/2/3, Fetch, CommitOffset in rotation, or "
+         "ListPartitionReassignments for the flexible v1 response header) carries a "
          "unique topic name that the server echoes, so responses are attributable; runt / short frames use every length "
          "in {0,1,3,4,5,7,8} with both header versions, v1 headers also get a non-empty tagged-field section (hdrtags); panics recovered by PanicHandler are attributed to their connection; the "
          "in-flight count is computed by the trace spec from server-side events only.",
@@ -173,6 +174,9 @@ def gen_cases(ctx, out):
     # The model's kind "runt" is the class "response header that fails to decode, peer goes on": besides the
     # runt lengths, a flexible (v1) header with a non-empty tagged-field section (len -1: one small tagged
     # field, -2: multi-byte varint field count, -3: tag bytes crafted to look like the start of a body).
+    # Request kind: in header-v0 cases the calls rotate through GetMetadata, Produce with RequiredAcks 1, -1, 2, 3,
+    # Fetch and CommitOffset ("mix"; not where a shortbody frame is scripted: 4 zero bytes decode as an empty
+    # produce / fetch / commit response); header-v1 cases use ListPartitionReassignments.
     RUNT = [(4, 1), (-3, 1), (4, 0), (-1, 1), (0, 1), (0, 0), (-2, 1), (1, 1), (1, 0), (3, 1), (3, 0)]
     SHORT = [(ln, hv) for ln in (5, 7, 8) for hv in (0, 1)]
     expanded = []
@@ -183,11 +187,11 @@ def gen_cases(ctx, out):
         combos = RUNT if k == "runt" else SHORT if k == "shortbody" else [(0, 0), (0, 1)]
         if c["src"] == "gen2" and k == "runt" and not c.get("impatient"):
             for ln, hv in combos:
-                expanded.append(dict(c, len=ln, hv=hv))
+                expanded.append(dict(c, len=ln, hv=hv, mix=(hv == 0 and k != "shortbody")))
         else:
             ln, hv = combos[rot[k] % len(combos)]
             rot[k] += 1
-            expanded.append(dict(c, len=ln, hv=hv))
+            expanded.append(dict(c, len=ln, hv=hv, mix=(hv == 0 and k != "shortbody")))
     cases = expanded
     for i, c in enumerate(cases):
         c["id"] = i + 1
